@@ -18,7 +18,8 @@ tvars == <<tid, l, s, h>>
 
 FailSet(k) == {f \in 1..k.n : k.files[f].fails}
 Cfg(k) == [n |-> k.n, fails |-> FailSet(k), W |-> k.W, H |-> 1]
-H0 == [begun |-> {}, ended |-> {}, reported |-> {}, cur |-> {}, workers |-> {}, last |-> {}, collected |-> FALSE]
+H0 == [begun |-> {}, ended |-> {}, reported |-> {}, cur |-> {}, workers |-> {}, last |-> {}, collected |-> FALSE,
+       mfail |-> "", mpos |-> 0]
 StartOf(i) == IF i <= Len(Cases) THEN InitState(Cfg(Cases[i])) ELSE <<>>
 
 ItemSet(q) == {q[i] : i \in 1..Len(q)}
@@ -26,7 +27,7 @@ ItemSet(q) == {q[i] : i \in 1..Len(q)}
 RepClause(k, f, items) ==
   IF k.files[f].fails
   THEN IF Len(items) = 1 /\ items[1][1] \notin ItemSet(k.rules) /\ items[1][2] = "0" THEN "ok"
-       ELSE "P-ReportIsFunctionOfFile:parse-failure-report"
+       ELSE "P-ReportIsFunctionOfFile:parse-failure"
   ELSE IF Len(items) = Len(k.files[f].rep) /\ ItemSet(items) = ItemSet(k.files[f].rep) THEN "ok"
        ELSE "P-ReportIsFunctionOfFile:wrong-violations"
 
@@ -38,11 +39,11 @@ PClause(k, hh, e) ==
     [] e.a = "report" ->
          IF e.f = 0 THEN "P-EachFileOnce:unselected-file-checked"
          ELSE IF e.f \in hh.reported THEN "P-EachFileOnce:second-report"
-         ELSE IF e.ncoll # 1 THEN "P-CollectedEqualsReported:report-not-collected-once"
+         ELSE IF e.ncoll # 1 THEN "P-CollectedEqualsReported:lost-report"
          ELSE RepClause(k, e.f, e.items)
     [] e.a = "collect" ->
          IF hh.reported # 1..k.n THEN "P-EachFileOnce:file-not-checked"
-         ELSE IF k.extra # 0 THEN "P-CollectedEqualsReported:collected-without-report"
+         ELSE IF k.extra # 0 THEN "P-CollectedEqualsReported:extra-entry"
          ELSE "ok"
     [] OTHER -> "ok"
 
@@ -104,20 +105,24 @@ Next_ ==
      IN IF l > Len(k.events)
         THEN LET pf == PFinal(k, h)
              IN IF pf # "ok" THEN Verdict(k, FALSE, pf, l)
+                ELSE IF h.mfail # "" THEN Verdict(k, FALSE, h.mfail, h.mpos)
                 ELSE IF ~k.raised /\ s.pc # "done" THEN Verdict(k, FALSE, "M-model-not-done", l)
                 ELSE Verdict(k, TRUE, "ok", 0)
         ELSE LET e  == k.events[l]
                  pc == PClause(k, h, e)
-                 mc == IF pc = "ok" THEN MClause(k, c, s, h, e) ELSE "ok"
+                 \* after the first model mismatch the model is switched off and only P clauses are evaluated
+                 \* on the rest of the log; the mismatch is reported at the end unless a P clause fails
+                 mc == IF pc = "ok" /\ h.mfail = "" THEN MClause(k, c, s, h, e) ELSE "ok"
              IN IF pc # "ok" THEN Verdict(k, FALSE, pc, l)
-                ELSE IF mc # "ok" THEN Verdict(k, FALSE, mc, l)
-                ELSE /\ s' = Ap(c, Before(c, s, e), ModelEv(e))
-                     /\ h' = NextH(h, e) /\ l' = l + 1 /\ tid' = tid
+                ELSE /\ s' = IF h.mfail = "" /\ mc = "ok" THEN Ap(c, Before(c, s, e), ModelEv(e)) ELSE s
+                     /\ h' = [NextH(h, e) EXCEPT !.mfail = IF h.mfail = "" THEN (IF mc = "ok" THEN "" ELSE mc) ELSE h.mfail,
+                                                 !.mpos = IF h.mfail = "" /\ mc # "ok" THEN l ELSE h.mpos]
+                     /\ l' = l + 1 /\ tid' = tid
 
 TraceSpec == Init_ /\ [][Next_]_tvars
 
 ReplayedStatesSatisfyInvariants ==
-  tid <= Len(Cases) =>
+  (tid <= Len(Cases) /\ h.mfail = "") =>
      LET c == Cfg(Cases[tid]) IN EachFileOnceP(c, s) /\ ReportsAreFunctionOfFileP(c, s) /\ WorkersBoundP(c, s)
                                  /\ CountIsParsedP(c, s)
 =============================================================================
